@@ -168,6 +168,15 @@ M("c04.toy.dsa.verify.modq", "C04", DSAPY, "v = (pow(g, u1, p) * pow(y, u2, p) %
 M("c04.toy.dsa.sign.r", "C04", DSAPY, "r = pow(g, k, p) % q  # r = (g**k mod p) mod q", "r = pow(g, k, q) % p", "K-pw|dsa.toy.sign")
 M("c04.twin.toy.ecdsa.verify", "C04", ECCPY, "return (point1 + point2).x % order == rs[0]", "v = (point2 + point1).x % order\n        return v == rs[0]", twin=True)
 
+SHA2T = "src/hash_SHA2_template.c"
+M("c03.digest.sha256.k63", "C03", SHA2T, "0x84c87814, 0x8cc70208,", "0x84c87814, 0x8cc70209,", "K-kat|c|digest.md")
+M("c03.digest.sha512.sigma", "C03", SHA2T, "#define sigma_1_512(x)    (ROTR64(19,x) ^ ROTR64(61,x) ^ SHR(6,x))", "#define sigma_1_512(x)    (ROTR64(19,x) ^ ROTR64(61,x) ^ SHR(7,x))", "K-kat|c|digest.md")
+M("c03.digest.sha512.klast", "C03", SHA2T, "0x6c44198c4a475817ULL", "0x6c44198c4a475816ULL", "K-kat|c|digest.md")
+M("c03.digest.sha1.kz", "C03", "src/SHA1.c", "#define Kz  0x8f1bbcdc", "#define Kz  0x8f1bbcdd", "K-kat|c|digest.md")
+M("c03.digest.blake2s.r4", "C03", "src/blake2s.c", "#define G_R4 7", "#define G_R4 8", "K-kat|c|digest.blake2")
+M("c03.digest.blake2.final", "C03", "src/blake2.c", "    if (bt == FINAL_BLOCK)", "    if (bt != FINAL_BLOCK)", "K-kat|c|digest.blake2")
+M("c03.digest.keccak.rot", "C03", "src/keccak.c", "        d   = c4 ^ ROL64(c1, 1);", "        d   = c4 ^ ROL64(c1, 2);", "K-kat|c|digest.keccak")
+M("c03.digest.ripemd.k", "C03", "src/RIPEMD160.c", "0x50A28BE6u", "0x50A28BE7u", "K-kat|c|digest.md")
 AESNIC = "src/AESNI.c"
 M("c16.aesni.rcon9", "C16", AESNIC, "    case 9:  y = _mm_aeskeygenassist_si128(x, 0x1b); break;", "    case 9:  y = _mm_aeskeygenassist_si128(x, 0x1c); break;", "|c|aes.")
 M("c16.aesni.lane5", "C16", AESNIC, "            data[5] = _mm_aesenc_si128(data[5], r[j]);\n            data[6] = _mm_aesenc_si128(data[6], r[j]);\n            data[7] = _mm_aesenc_si128(data[7], r[j]);\n        }\n    \n        for (; j<rounds; j++) {",
